@@ -41,7 +41,7 @@ TRUST = ("Trusted: shuttle 0.9.3's models of std Mutex (incl. poisoning), SeqCst
 
 CHECKS = {
  "C05": check("C05", "exploration",
-    "Seeded search over thread schedules and virtual processing / upstream / consumer delays (from zero to 90 s of virtual time, so that anything with a time-out sees it fire) of the real Pipe, its compositions with Buffered and a second Pipe, and the real InferenceLoader: N = 0..40 items (rarely 255..512), W = 0..6 workers (rarely 16 / 255), upstream with or without an exact size_hint, consumer that polls again after the end. Every run is compared exactly with the sequential map (for the InferenceLoader: with a sequential window-and-tokenize reference), with exactly-once call counters from the event history and with termination of every worker thread. The failure windows are single statements wide, which only a scheduler that switches exactly there reaches; exhaustive enumeration is infeasible (busy-wait loop), so exploration is the honest level. Later additions (DESIGN.md 8.2): positional and consuming adaptors (nth / skip / step_by, count / last / for_each), a demand-fed (closed-loop) upstream, a process history of 1-260 earlier pipes abandoned early, a shared worker pool of 1-8 threads (rayon::spawn seam), 1-64 CPUs reported by available_parallelism.",
+    "Seeded search over thread schedules and virtual processing / upstream / consumer delays (from zero to 90 s of virtual time, so that anything with a time-out sees it fire) of the real Pipe, its compositions with Buffered and a second Pipe, and the real InferenceLoader: N = 0..40 items (rarely 255..512), W = 0..6 workers (rarely 16 / 255), upstream with or without an exact size_hint, consumer that polls again after the end. Every run is compared exactly with the sequential map (for the InferenceLoader: with a sequential window-and-tokenize reference), with exactly-once call counters from the event history and with termination of every worker thread. The failure windows are single statements wide, which only a scheduler that switches exactly there reaches; exhaustive enumeration is infeasible (busy-wait loop), so exploration is the honest level. Later additions (DESIGN.md 8.2): positional and consuming adaptors (nth / skip / step_by, count / last / for_each), a demand-fed (closed-loop) upstream, a process history of 1-260 earlier pipes abandoned early, a shared worker pool of 1-8 threads (rayon::spawn seam), 1-64 CPUs reported by available_parallelism, a consumer that asks for size_hint() before every call.",
     TRUST, "deterministic simulation: seeded scheduler + virtual clock over real Pipe/Buffered code, sequential-map oracle on the recorded history", "DESIGN.md 3 (C05)"),
  "C09": check("C09", "fault_enumeration",
     "The fault grid (about 2 800 cells) is enumerated completely and inside each cell thread schedules, delay patterns and the upstream's size_hint are sampled from the seed: consumer drop after k = 0..8 (and 60 / 150 with a slow consumer) items with or without an idle consumer (2 ms and 30 s of virtual time); a panic of the processing function or of the upstream iterator (ticket lock held) on item j = 0..8, also on one of the last 1-3 items of a bounded stream; shapes pipe / buffered / pipe+buffered, W = 0..4 plus 16 and 255, B = 0..3 plus 16 and 100, bounded and unbounded upstream; the real InferenceLoader and the real TrainLoader abandoned mid-epoch; histories with a second component in the process (train_bpe called between loader creation and the panic; a second pipe created before / after the observed one, dropped or alive). Oracles, no stronger than the statement: a generous linear look-ahead envelope 8*(W+B)+16 at every event, every background thread exits after the drop within the step cap, and a worker panic ends in ProcessExit(code != 0) reached through the repository's own code (its hook closure or the worker's exit-on-panic guard), never in a blocked or spinning consumer. Later additions to the grid (DESIGN.md 8.2): a panic raised on a helper thread; foreign code setting / taking the panic hook between two pipes; a pipe built while another one's workers fail; train_bpe on another thread while the loader is created; stalled standard output; a demand-fed upstream closed only after the drop; straggler items. Fault points are few and discrete, so enumerating them is right; schedules are not enumerable (busy-wait), so they are sampled.",
@@ -53,7 +53,7 @@ CHECKS = {
     "Seeded search over generated corpora on 2-4 letter alphabets (overlapping pairs such as 'aaa'/'abab', repeated words, corpora exhausted before the requested number of merges), vocab sizes / special-token counts / normalisation / max_lines_per_file, trained by the real train_bpe with 0..4 counting threads in separate simulated processes under seeded schedules and per-process hash keys (which decide ties among maximal pairs). The emitted table is read back and re-derived step by step by an independent recount of adjacent-pair frequencies from scratch (any maximal pair accepted, branching on ambiguous concatenations), ids must be exactly 0..n-1 with n <= requested, and a BPETokenizer built from the file must be lossless and vocabulary-consistent on the corpus. Termination (no deadlock on the count channel) is required for every thread count. Later additions: undecodable lines, a stale longer table at the output path, a second unrelated training on another thread of the same process writing next to the table.",
     TRUST + " The reference obtains the words of a line through the library's pure functions clean/normalize/count_words_whitespace.", "deterministic simulation: seeded schedules x thread counts x simulated OS entropy over real train_bpe, independent greedy-BPE recount as oracle", "DESIGN.md 3 (C19)"),
  "C08": check("C08", "exploration",
-    "Seeded search over histories of the real TrainLoader (driven through the guarded Rust driver that makes the calls the Python binding makes): generated jsonl files whose items carry unique ids, pipeline configurations (whitespace / spelling corruption with a characters file that has frequency ties, switch, chain, substrings, three tasks, token masking / clipping), loader options (strategy, shuffle, sort, prefetch, batch limit and type, seed, epoch, skip, limit). Every loader instance is its own simulated process with its own thread schedule and OS entropy: a reference instance is compared with the same configuration under other (num_threads, buffer_size) (batch-for-batch identical), with all ranks of a world of 2-4 (disjoint, union equal, each item identical, rank positions), with a skip=k / limit=k split, with a crash (loader dropped mid-epoch at an arbitrary schedule point) followed by a restart with fast_forward(k) in a fresh process, optionally distributed, with a second iter() on the same loader object, and with a second loader living in the same process. Half of the instances are driven with the call sequence of the Python trainer (iter, then set_epoch / set_fast_forward, then iter again). The oracle is metamorphic (streams of the implementation compared with each other by item id), so no seed-derivation formula is baked in. Later additions: consumer pauses of 5-60 s of virtual time, next() called again after the end of the epoch, the two setters called in either order, a companion loader that starts new passes while the observed one is mid-epoch.",
+    "Seeded search over histories of the real TrainLoader (driven through the guarded Rust driver that makes the calls the Python binding makes): generated jsonl files whose items carry unique ids, pipeline configurations (whitespace / spelling corruption with a characters file that has frequency ties, switch, chain, substrings, three tasks, token masking / clipping), loader options (strategy, shuffle, sort, prefetch, batch limit and type, seed, epoch, skip, limit). Every loader instance is its own simulated process with its own thread schedule and OS entropy: a reference instance is compared with the same configuration under other (num_threads, buffer_size) (batch-for-batch identical), with all ranks of a world of 2-4 (disjoint, union equal, each item identical, rank positions), with a skip=k / limit=k split, with a crash (loader dropped mid-epoch at an arbitrary schedule point) followed by a restart with fast_forward(k) in a fresh process, optionally distributed, with a second iter() on the same loader object, and with a second loader living in the same process. Half of the instances are driven with the call sequence of the Python trainer (iter, then set_epoch / set_fast_forward, then iter again). The oracle is metamorphic (streams of the implementation compared with each other by item id), so no seed-derivation formula is baked in. Later additions: consumer pauses of 5-60 s of virtual time, next() called again after the end of the epoch, the two setters called in either order, a companion loader that starts new passes while the observed one is mid-epoch, iter() called twice in a row after the setters (what `for b in iter(loader)` does).",
     TRUST + " A defect that changes every stream in the same way is invisible to a metamorphic oracle. Order-sensitive clauses are judged only when no line/item was dropped on the way.", "deterministic simulation: loader instances as simulated processes (seeded schedules, simulated OS entropy, crash/restart with fast_forward) over the real TrainLoader; metamorphic stream comparison by item id", "DESIGN.md 3 (C08)"),
 }
 
